@@ -6,6 +6,7 @@ import Flowjaxv.Driver.ArrTree
 import Flowjaxv.Driver.AdDrv
 import Flowjaxv.Driver.PyTree
 import Flowjaxv.Driver.Masks
+import Flowjaxv.Driver.Wrappers
 import Flowjaxv.Driver.Params
 import Flowjaxv.Driver.ArgCheck
 import Flowjaxv.Driver.Families
@@ -45,12 +46,19 @@ def dispatch (line : String) : String :=
       | "admix" => admix args
       | "adnet" => adnet args
       | "pytree" => pytree args
+      | "gwrap" => gwrap args
       | "jmod" => jmodOp args
       | "rankmask" => rankmask args
       | "blockdiag" => blockdiag args
       | "blocktril" => blocktril args
       | "mafranks" => mafranks args
       | "mafmasks" => mafmasks args
+      | "gimod" => gimod args
+      | "grankmask" => grankmask args
+      | "gblockdiag" => gblockdiag args
+      | "gblocktril" => gblocktril args
+      | "gmafranks" => gmafranks args
+      | "gmafmasks" => gmafmasks args
       | "mafdeps" => mafdeps args
       | "bnafdeps" => bnafdeps args
       | "mafnet" => mafnet args
